@@ -247,6 +247,28 @@ func (in *inliner) stmt(s ast.Stmt, cc *calleeCtx) []ast.Stmt {
 				}
 			}
 		}
+		if pre == nil && x.Init == nil {
+			// `if h(a) {…}` / `if !h(a) {…}` with a single-result helper: the result goes through a synthetic variable
+			condExpr, neg := ast.Unparen(x.Cond), false
+			if u, ok := condExpr.(*ast.UnaryExpr); ok && u.Op == token.NOT {
+				condExpr, neg = ast.Unparen(u.X), true
+			}
+			if call, ok := condExpr.(*ast.CallExpr); ok {
+				if src := in.inlinable(call); src != nil {
+					if sig := src.Obj.Type().(*types.Signature); sig.Results().Len() == 1 {
+						def, use := in.synthVar("cond", sig.Results().At(0).Type(), call.Pos())
+						pre = in.expand(call, src, []ast.Expr{def}, token.DEFINE, false, cc)
+						var nc ast.Expr = use()
+						if neg {
+							ne := &ast.UnaryExpr{OpPos: x.Cond.Pos(), Op: token.NOT, X: nc}
+							in.f.Info.Types[ne] = types.TypeAndValue{Type: types.Typ[types.Bool]}
+							nc = ne
+						}
+						cp.Cond = nc
+					}
+				}
+			}
+		}
 		cp.Body = in.block(x.Body, cc)
 		if x.Else != nil {
 			cp.Else = in.one(x.Else, cc)
@@ -300,6 +322,27 @@ func (in *inliner) stmt(s ast.Stmt, cc *calleeCtx) []ast.Stmt {
 		return in.ret(x, cc)
 	}
 	return []ast.Stmt{s}
+}
+
+// synthVar creates a typed synthetic local: its defining identifier and a factory of uses,
+// registered in the package's types.Info.
+func (in *inliner) synthVar(name string, t types.Type, pos token.Pos) (ast.Expr, func() *ast.Ident) {
+	f := in.f
+	in.labels++
+	name = fmt.Sprintf("%s·%d", name, in.labels)
+	var pkg *types.Package
+	if f.Pkg != nil {
+		pkg = f.Pkg.Types
+	}
+	v := types.NewVar(pos, pkg, name, t)
+	def := &ast.Ident{NamePos: pos, Name: name}
+	f.Info.Defs[def] = v
+	return def, func() *ast.Ident {
+		id := &ast.Ident{NamePos: pos, Name: name}
+		f.Info.Uses[id] = v
+		f.Info.Types[id] = types.TypeAndValue{Type: t}
+		return id
+	}
 }
 
 func renamed(id *ast.Ident, suffix string) *ast.Ident {
